@@ -18,6 +18,7 @@ type Obj struct {
 	elem  types.Type // element type (object is an array of n elems)
 	n     int        // number of elements
 	esz   int        // cells per element
+	glob  bool       // package-level variable: exists (zero) in every state
 }
 
 func (o *Obj) String() string { return fmt.Sprintf("obj%d(%s)", o.id, o.label) }
